@@ -107,6 +107,34 @@ v("b38-config-locate-rename", ["C19", "C20"], "local renamed",
   (CFG_, "    orig_search_path = search_path\n", "    start_path = search_path\n"), (CFG_, "    search_path = os.path.abspath(orig_search_path)\n", "    search_path = os.path.abspath(start_path)\n"))
 
 
+v("b39-openjob-sentinel-order", ["C02", "C01"], "operands of the None tests swapped",
+  (P, "        if statepoint is None and id is None:\n            raise ValueError(\"Must provide statepoint or id.\")", "        if id is None and statepoint is None:\n            raise ValueError(\"Must provide statepoint or id.\")"))
+v("b40-groupby-hoist-sorted", ["C07", "C18"], "sorted() hoisted into a local",
+  (P, "        yield from groupby(\n            sorted(\n                iter(self._project.find_jobs(_filter)),\n                key=keyfunction,\n            ),\n            key=keyfunction,\n        )",
+      "        ordered = sorted(\n            iter(self._project.find_jobs(_filter)),\n            key=keyfunction,\n        )\n        yield from groupby(ordered, key=keyfunction)"))
+v("b41-findresult-ior-fresh-set", ["C06"], "in-place union on the locally created set",
+  (SI, "                or_results.update(self._find_result(expr_))", "                or_results |= self._find_result(expr_)"))
+v("b42-register-update", ["C09", "C01", "C08"], "store spelled as update() of one item",
+  (P, "        self._sp_cache[id_] = statepoint\n", "        self._sp_cache.update({id_: statepoint})\n"))
+v("b43-project-abspath-normpath", ["C05", "C19"], "extra normalisation inside abspath",
+  (P, "        self._path = os.path.abspath(path)", "        self._path = os.path.abspath(os.path.normpath(path))"))
+v("b44-wsread-handler-order", ["C09", "C11", "C01"], "exception tuple reordered",
+  (P, "        except (OSError, ValueError) as error:\n            if os.path.isdir(os.sep.join((self.workspace, job_id))):", "        except (ValueError, OSError) as error:\n            if os.path.isdir(os.sep.join((self.workspace, job_id))):"))
+v("b45-structure-check-reverse-prefixes", ["C16", "C17"], "prefixes enumerated from the longest to the shortest",
+  (IE, "        for i in range(1, len(tokens)):\n            nodes.add(os.path.sep.join(tokens[:i]))", "        for i in range(len(tokens) - 1, 0, -1):\n            nodes.add(os.path.sep.join(tokens[:i]))"))
+v("b46-selection-logging", ["C13", "C15"], "logging only (truthiness of the selection decides a log message, as in the existing code)",
+  (S, "    if selection:\n        logger.info(\n            \"Synchronizing selection", "    if selection:\n        logger.debug(\"A selection was given.\")\n    if selection:\n        logger.info(\n            \"Synchronizing selection"))
+v("b47-clear-skip-set-local", ["C03", "C05"], "skip tuple bound to a local",
+  (J, "            for fn in os.listdir(self.path):\n                if fn in (self.FN_STATE_POINT, self.FN_DOCUMENT):\n                    continue",
+      "            keep = (self.FN_STATE_POINT, self.FN_DOCUMENT)\n            for fn in os.listdir(self.path):\n                if fn in keep:\n                    continue"))
+v("b48-readcache-update-kw", ["C08"], "merge spelled with dict unpacking into update",
+  (P, "            self._sp_cache.update(cache)\n", "            self._sp_cache.update(dict(cache))\n"))
+v("b49-mkdirp-comment-noop", ["C12"], "equivalent test spelled with `is False`",
+  (os.path.join("signac", "_utility.py"), "    if not os.path.isdir(path):\n        os.makedirs(path, exist_ok=True)", "    if os.path.isdir(path) is False:\n        os.makedirs(path, exist_ok=True)"))
+v("b50-doc-setter-local", ["C05", "C10"], "handle bound to a local before the single reset",
+  (J, "        self.document.reset(new_doc)", "        doc = self.document\n        doc.reset(new_doc)"))
+
+
 def main():
     os.makedirs(OUT, exist_ok=True)
     for f in os.listdir(OUT):
